@@ -358,10 +358,10 @@ Definition step (t : nat) (s : st) : option (st * list ev) :=
           let s1 := upd_op s k w_completed in
           if negb (o_started o) && match o_sync o with Some _ => true | None => false end
           then Some (set_thr s1 t (ASyncStore k c) kc, [e])
-          else let (s2, evs) := go_cleanup s1 t kc k c in Some (s2, e :: evs)
+          else let r := go_cleanup s1 t kc k c in Some (fst r, e :: snd r)
     | ASyncStore k c =>
-        let (s2, evs) := go_cleanup (upd_op s k (w_sync (Some true))) t kc k c in
-        Some (s2, ESyncSt k :: evs)
+        let r := go_cleanup (upd_op s k (w_sync (Some true))) t kc k c in
+        Some (fst r, ESyncSt k :: snd r)
     | ADeregAcq k c =>
         let o := getop s k in
         if o_src_locked o then None
@@ -380,15 +380,15 @@ Definition step (t : nat) (s : st) : option (st * list ev) :=
         let s1 := upd_op s k (fun o => w_src (o_src_stop o) false o) in
         let e := ESrcRel k (b2n (o_src_stop o)) in
         if wait then Some (set_thr s1 t (ADeregWait k c) kc, [e])
-        else let (s2, evs) := go_hop s1 t kc k c in Some (s2, e :: evs)
+        else let r := go_hop s1 t kc k c in Some (fst r, e :: snd r)
     | ADeregWait k c =>
         if o_cbdone (getop s k)
-        then let (s2, evs) := go_hop s t kc k c in Some (s2, ECbDoneLd k :: evs)
+        then let r := go_hop s t kc k c in Some (fst r, ECbDoneLd k :: snd r)
         else None
     | AHop k c =>
         let o := getop s k in
-        let (s2, evs) := deliver s t kc k c (o_src_stop o) in
-        Some (s2, ESrcLd k (src_val o) :: evs)
+        let r := deliver s t kc k c (o_src_stop o) in
+        Some (fst r, ESrcLd k (src_val o) :: snd r)
     | ASyncLoad i =>
         let b := match o_sync (getop s i) with Some b => b | None => false end in
         if b then Some (ret s t kc, [ESyncLd i true])
